@@ -90,12 +90,15 @@ class Axis:
                     for chop in reversed(neighbour.wires.chops):
                         self.wires.add_chop(chop.copy_preserving(inverted=True))
 
-                self.grade()
+                self.wires.grade()
                 return True
 
         return False
 
     def grade(self) -> None:
+        # start afresh: grade() can be called repeatedly
+        # (mesh written twice, vertices moved in between)
+        self.wires.reset()
         self.wires.grade()
 
     @property
